@@ -34,6 +34,10 @@ claim('C09', 'CrossHair symbolic execution of small_factors (symbolic n) and _ge
       'for all k, z3 regex-theory equivalence of terminal-level repetition patterns, and CrossHair-driven end-to-end parses around the bounds',
       'Bounded in n, mx, m (stated in evidence); unbounded in the repetition count k (LIA) and in the matched string (regex theory).',
       'Trusted: z3 LIA/regex theory, the compositional interval argument (sum of intervals is an interval; union checked by z3).', '3/C09')
+claim('C13', 'CrossHair symbolic execution of the real InteractiveParser / ImmutableInteractiveParser / ParserState / LexerThread code over symbolic fork histories '
+      '(prefix, fork kind, two continuations, interleaving, accepts step; resume/exhaust with text attached; resume from an error state)',
+      'Bounded in prefix/continuation length and fork depth (2 levels); every parser must end with parse() of exactly its own token sequence; accepts() exact.',
+      'Trusted: the real parser run afresh on each sequence is the reference (the property is relational).', '3/C13')
 claim('C18', 'CrossHair symbolic execution of the real Indenter: one handle_NL step from an arbitrary symbolic state (unbounded stack values, bracket depth, tab_len) and bounded '
       'lazily realised token streams incl. streams after an abandoned/failed earlier stream, vs. CPython\'s stack algorithm and the real tokenize module',
       'The step harness is inductive (one step from an arbitrary valid state covers streams of any length) for stack depth <= 6; streams are bounded in length.',
